@@ -205,6 +205,11 @@ def identity_set(t):
         ra = f._rank_attrs if hasattr(f, "_rank_attrs") else None
         if ra is not None:
             add("rankattrs", ra)
+        ow = f.getOwner()
+        if ow is not None:
+            add("rank", ow)
+            add("rankattrs", ow.getAttrs())
+            add("ranklist", ow.getFibers())
         for p in f.payloads:
             if isinstance(p, Fiber):
                 rec(p)
